@@ -126,6 +126,12 @@ def Scr.blank (width height : Nat) (onlcr : Bool) (cw : Rune → Nat) : Scr :=
 /-- cells occupied by a rune string -/
 def cellsOf (cw : Rune → Nat) (rs : List Rune) : Nat := (rs.map cw).sum
 
+/-- does the rune string end inside a colour sequence (an ESC with no `m` after it)?  `b` = already inside one -/
+def endsInEsc : Bool → List Rune → Bool
+  | b, [] => b
+  | false, r :: rest => endsInEsc (r = 27) rest
+  | true, r :: rest => endsInEsc (r ≠ 109) rest
+
 /-! ### the class of texts the refinement theorems speak about -/
 
 /-- a printable rune of width one, or a colour sequence `ESC [ (0-9 : ;)* m` -/
